@@ -15,6 +15,7 @@ pub ghost struct World {
     pub pgrp: int,          // the shell's own process group
     pub assigned: Seq<Map<Seq<char>, Seq<char>>>,   // set_shell_vars calls
     pub pipelines: int,     // run_pipeline calls
+    pub planned: int,       // CommandLine::from_line calls: each one runs the command substitutions of the line
 }
 pub uninterp spec fn smap(m: HashMap<String, String>) -> Map<Seq<char>, Seq<char>>;
 #[verifier::external_body]
@@ -23,8 +24,9 @@ pub fn vx_hm_is_empty(m: &HashMap<String, String>) -> (r: bool) ensures r == (sm
 impl CommandLine {
     // contract proved in U-PLAN (commands have at least one word)
     #[verifier::external_body]
-    pub fn from_line(line: &str, sh: &mut Shell) -> (r: Result<CommandLine, String>)
-        ensures match r { Ok(cl) => forall|i: int| 0 <= i < cl.commands@.len() ==> (#[trigger] cl.commands@[i]).tokens@.len() > 0, Err(_) => true }
+    pub fn from_line(line: &str, sh: &mut Shell, Tracked(w): Tracked<&mut World>) -> (r: Result<CommandLine, String>)
+        ensures final(w).planned == old(w).planned + 1, final(w).tty_pgrp == old(w).tty_pgrp, final(w).pgrp == old(w).pgrp, final(w).assigned == old(w).assigned, final(w).pipelines == old(w).pipelines,
+            match r { Ok(cl) => forall|i: int| 0 <= i < cl.commands@.len() ==> (#[trigger] cl.commands@[i]).tokens@.len() > 0, Err(_) => true }
     { unimplemented!() }
     #[verifier::external_body]
     pub fn is_empty(&self) -> (r: bool) ensures r == (self.commands@.len() == 0) { unimplemented!() }
@@ -36,13 +38,13 @@ impl CommandResult {
 // contract proved in U-ENV
 #[verifier::external_body]
 pub fn set_shell_vars(sh: &mut Shell, envs: &HashMap<String, String>, Tracked(w): Tracked<&mut World>)
-    ensures final(w).assigned == old(w).assigned.push(smap(*envs)), final(w).tty_pgrp == old(w).tty_pgrp, final(w).pgrp == old(w).pgrp, final(w).pipelines == old(w).pipelines
+    ensures final(w).assigned == old(w).assigned.push(smap(*envs)), final(w).tty_pgrp == old(w).tty_pgrp, final(w).pgrp == old(w).pgrp, final(w).pipelines == old(w).pipelines, final(w).planned == old(w).planned
 { unimplemented!() }
 // contract proved in U-FD: the terminal is given away only if that is reported to the caller
 #[verifier::external_body]
 pub fn run_pipeline(sh: &mut Shell, cl: &CommandLine, tty: bool, capture: bool, log_cmd: bool, Tracked(w): Tracked<&mut World>) -> (r: (bool, CommandResult))
     requires forall|i: int| 0 <= i < cl.commands@.len() ==> (#[trigger] cl.commands@[i]).tokens@.len() > 0
-    ensures final(w).tty_pgrp != old(w).tty_pgrp ==> r.0, final(w).pgrp == old(w).pgrp, final(w).assigned == old(w).assigned, final(w).pipelines == old(w).pipelines + 1
+    ensures final(w).tty_pgrp != old(w).tty_pgrp ==> r.0, final(w).pgrp == old(w).pgrp, final(w).assigned == old(w).assigned, final(w).pipelines == old(w).pipelines + 1, final(w).planned == old(w).planned
 { unimplemented!() }
 #[verifier::external_body]
 pub fn vx_getpgid0(Tracked(w): Tracked<&World>) -> (r: i32) ensures r as int == w.pgrp { unimplemented!() }
@@ -50,10 +52,11 @@ pub fn vx_getpgid0(Tracked(w): Tracked<&World>) -> (r: i32) ensures r as int == 
 #[verifier::external_body]
 pub fn give_terminal_to(gid: i32, Tracked(w): Tracked<&mut World>) -> (r: bool)
     ensures final(w).tty_pgrp == (if r { gid as int } else { old(w).tty_pgrp }), gid as int == old(w).pgrp ==> r,
-        final(w).pgrp == old(w).pgrp, final(w).assigned == old(w).assigned, final(w).pipelines == old(w).pipelines
+        final(w).pgrp == old(w).pgrp, final(w).assigned == old(w).assigned, final(w).pipelines == old(w).pipelines, final(w).planned == old(w).planned
 { unimplemented!() }
 
 //@FN run_proc
+//@FN run_with_shell
 ''' + common.TAIL
 
 run_proc = Fn('src/execute.rs', 'run_proc', ret='r',
@@ -65,9 +68,10 @@ run_proc = Fn('src/execute.rs', 'run_proc', ret='r',
         Rw('cl.envs.is_empty()', 'vx_hm_is_empty(&cl.envs)', rule='R12'),
     ],
     add_params='Tracked(w): Tracked<&mut World>',
-    ghost_args={'run_pipeline': 'Tracked(w)', 'set_shell_vars': 'Tracked(w)'},
+    ghost_args={'run_pipeline': 'Tracked(w)', 'set_shell_vars': 'Tracked(w)', 'from_line': 'Tracked(w)'},
     requires=[('C07.pre.shell_owns_terminal', 'old(w).tty_pgrp == old(w).pgrp')],
     ensures=[
+        ('C11.run_proc.the_line_is_planned_once_so_its_substitutions_run_once', 'final(w).planned == old(w).planned + 1'),
         ('C07.run_proc.terminal_is_the_shells_again', 'final(w).tty_pgrp == final(w).pgrp && final(w).pgrp == old(w).pgrp'),
         ('C09.run_proc.assignment_only_without_command',
          '(final(w).assigned.len() > old(w).assigned.len() ==> final(w).pipelines == old(w).pipelines) '
@@ -75,9 +79,28 @@ run_proc = Fn('src/execute.rs', 'run_proc', ret='r',
     ],
 )
 
-UNIT = Unit('U-PROC', TEMPLATE, fns=[run_proc, Fn('src/types.rs', 'new', impl='CommandResult'), Fn('src/types.rs', 'from_status', impl='CommandResult')],
+run_with_shell = Fn('src/execute.rs', 'run_with_shell', ret='r', props=('C11', 'C09', 'C07'),
+    pre_rewrites=[
+        Rw('core::run_pipeline(', 'run_pipeline(', rule='R0'),
+        Rw('let gid = libc::getpgid(0);', 'let gid = vx_getpgid0(Tracked(w));', rule='R8'),
+        Rw('shell::give_terminal_to(gid);', 'give_terminal_to(gid, Tracked(w));', rule='R8'),
+        Rw(r'\bunsafe\s*\{', '{', regex=True, rule='R14'),
+    ],
+    add_params='Tracked(w): Tracked<&mut World>',
+    ghost_args={'run_pipeline': 'Tracked(w)', 'set_shell_vars': 'Tracked(w)', 'from_line': 'Tracked(w)'},
+    requires=[('C07.pre.run_with_shell.shell_owns_terminal', 'old(w).tty_pgrp == old(w).pgrp')],
+    ensures=[
+        # (repair 274970d) the library entry point (cicada::run, the commands of a prompt template) plans the line once
+        ('C11.run_with_shell.the_line_is_planned_once_so_its_substitutions_run_once', 'final(w).planned == old(w).planned + 1'),
+        ('C07.run_with_shell.terminal_is_the_shells_again', 'final(w).tty_pgrp == final(w).pgrp && final(w).pgrp == old(w).pgrp'),
+        ('C09.run_with_shell.assignment_only_without_command',
+         '(final(w).assigned.len() > old(w).assigned.len() ==> final(w).pipelines == old(w).pipelines) '
+         '&& final(w).assigned.len() <= old(w).assigned.len() + 1 && final(w).pipelines <= old(w).pipelines + 1'),
+    ],
+)
+UNIT = Unit('U-PROC', TEMPLATE, fns=[run_proc, run_with_shell, Fn('src/types.rs', 'new', impl='CommandResult'), Fn('src/types.rs', 'from_status', impl='CommandResult')],
             types=[TypeItem('src/types.rs', 'struct', 'Command'), TypeItem('src/types.rs', 'struct', 'CommandLine'), TypeItem('src/types.rs', 'struct', 'CommandResult')],
-            props=('C07', 'C09', 'C05'))
+            props=('C07', 'C09', 'C11', 'C05'))
 TRUSTED = common.TRUSTED_STR + [
     'CommandLine::from_line, core::run_pipeline, set_shell_vars are external here with (the relevant part of) the contracts proved in U-PLAN / U-FD / U-ENV',
     'tcsetpgrp (give_terminal_to) succeeds when the shell names its own process group (SIGTTOU is blocked around the call): assumed',
